@@ -27,6 +27,8 @@ type SolverStats struct {
 	Queries, Sat, Unsat, Unknown, Errors int
 	Time                                 time.Duration
 	MaxQuery                             time.Duration
+	Hist                                 [6]int           // <5ms <20ms <100ms <500ms <2s >=2s
+	HistTime                             [6]time.Duration
 }
 
 func (s *SolverStats) add(o SolverStats) {
@@ -38,6 +40,10 @@ func (s *SolverStats) add(o SolverStats) {
 	s.Time += o.Time
 	if o.MaxQuery > s.MaxQuery {
 		s.MaxQuery = o.MaxQuery
+	}
+	for i := range s.Hist {
+		s.Hist[i] += o.Hist[i]
+		s.HistTime[i] += o.HistTime[i]
 	}
 }
 
@@ -57,10 +63,33 @@ type Solver struct {
 	logf      *os.File
 	kind      string // z3 | z3-new | cvc5
 	nDefs     int
+	where     func() string
+	checkCmd  string
+	stack     [][]*Term // asserted terms per push level (level 0 = base)
+	deaths    int       // number of times the solver process died
+	fbActive  bool              // last Check was answered by the fallback process; values come from fbEnv
+	fbEnv     map[string]uint64 // model of the fallback run
+	fastMs    int       // first-attempt timeout; on unknown the session is rebuilt and the query retried with timeoutMs
+	Retries   int
 }
 
 func NewSolver(ts *TermStore, kind string, timeoutMs int) *Solver {
-	s := &Solver{ts: ts, kind: kind, timeoutMs: timeoutMs, declared: map[string]int{}}
+	s := &Solver{ts: ts, kind: kind, timeoutMs: timeoutMs, declared: map[string]int{}, checkCmd: "(check-sat)"}
+	if k := os.Getenv("VERIF_SOLVER"); k != "" {
+		s.kind = k
+	}
+	if s.kind == "z3" {
+		// z3 4.8.12's incremental core (used after push) stalls on bit-vector/UF queries that the
+		// default tactic decides in milliseconds; run the tactic on the current assertion stack.
+		s.checkCmd = "(check-sat-using default)"
+	}
+	if c := os.Getenv("VERIF_CHECKCMD"); c != "" {
+		s.checkCmd = c
+	}
+	s.fastMs = 300
+	if v := os.Getenv("VERIF_FAST_MS"); v != "" {
+		s.fastMs, _ = strconv.Atoi(v)
+	}
 	s.start()
 	return s
 }
@@ -94,6 +123,7 @@ func (s *Solver) start() {
 	s.gen++
 	s.depth = 0
 	s.nDefs = 0
+	s.stack = [][]*Term{nil}
 	if p := os.Getenv("VERIF_SMTLOG"); p != "" && s.logf == nil {
 		s.logf, _ = os.Create(fmt.Sprintf("%s.%d", p, os.Getpid()))
 	}
@@ -103,7 +133,11 @@ func (s *Solver) start() {
 func (s *Solver) preamble() {
 	s.send("(set-option :global-declarations true)")
 	if s.kind != "cvc5" {
-		s.send(fmt.Sprintf("(set-option :timeout %d)", s.timeoutMs))
+		if s.fastMs > 0 && s.fastMs < s.timeoutMs {
+			s.send(fmt.Sprintf("(set-option :timeout %d)", s.fastMs))
+		} else {
+			s.send(fmt.Sprintf("(set-option :timeout %d)", s.timeoutMs))
+		}
 		s.send("(set-option :model.completion true)")
 	} else {
 		s.send("(set-logic ALL)")
@@ -184,6 +218,13 @@ func (s *Solver) declare(t *Term) {
 			}
 			s.send(fmt.Sprintf("(define-fun t%d () %s %s)", x.id, sortOf(x.w), x.body()))
 			s.nDefs++
+		case OpApply:
+			if s.declared[x.name] != s.gen {
+				s.declared[x.name] = s.gen
+				s.send(fmt.Sprintf("(declare-fun %s (%s) %s)", x.name, sortOf(x.a.w), sortOf(x.w)))
+			}
+			s.send(fmt.Sprintf("(define-fun t%d () %s %s)", x.id, sortOf(x.w), x.body()))
+			s.nDefs++
 		default:
 			s.send(fmt.Sprintf("(define-fun t%d () %s %s)", x.id, sortOf(x.w), x.body()))
 			s.nDefs++
@@ -196,11 +237,15 @@ func (s *Solver) declare(t *Term) {
 func (s *Solver) Push() {
 	s.send("(push 1)")
 	s.depth++
+	s.stack = append(s.stack, nil)
 }
 
 func (s *Solver) Pop() {
 	s.send("(pop 1)")
 	s.depth--
+	if len(s.stack) > 1 {
+		s.stack = s.stack[:len(s.stack)-1]
+	}
 }
 
 func (s *Solver) PopTo(d int) {
@@ -218,6 +263,29 @@ func (s *Solver) Assert(t *Term) {
 	}
 	s.declare(t)
 	s.send("(assert " + t.ref() + ")")
+	if len(s.stack) == 0 {
+		s.stack = [][]*Term{nil}
+	}
+	s.stack[len(s.stack)-1] = append(s.stack[len(s.stack)-1], t)
+}
+
+// rebuild resets the solver session ((reset) drops every definition and learned clause) and
+// re-establishes the current assertion stack.
+func (s *Solver) rebuild() {
+	s.send("(reset)")
+	s.gen++
+	s.nDefs = 0
+	s.preamble()
+	st := s.stack
+	for lvl, terms := range st {
+		if lvl > 0 {
+			s.send("(push 1)")
+		}
+		for _, t := range terms {
+			s.declare(t)
+			s.send("(assert " + t.ref() + ")")
+		}
+	}
 }
 
 func (s *Solver) readLine() (string, error) {
@@ -225,10 +293,56 @@ func (s *Solver) readLine() (string, error) {
 	return strings.TrimSpace(line), err
 }
 
-// Check runs (check-sat) under the current assertions.
+// Check runs (check-sat) under the current assertions. A first attempt uses the short
+// timeout; if it is inconclusive the session is rebuilt from scratch (incremental z3 sessions
+// degrade as definitions and learned clauses pile up) and the query retried with the full timeout.
 func (s *Solver) Check() Result {
 	t0 := time.Now()
-	s.send("(check-sat)")
+	s.fbActive = false
+	res := s.check1()
+	if res == Unknown && s.cmd != nil && s.fastMs > 0 && s.fastMs < s.timeoutMs {
+		// the incremental core stalls on some queries that a fresh non-incremental run decides
+		// quickly: re-decide the current assertion stack in a fresh solver process.
+		s.Retries++
+		res = s.fallbackCheck()
+	}
+	d := time.Since(t0)
+	if d > 300*time.Millisecond && s.where != nil && os.Getenv("VERIF_DEBUG") != "" {
+		fmt.Fprintf(os.Stderr, "SLOW query %v res=%v %s\n", d, res, s.where())
+	}
+	s.stats.Queries++
+	s.stats.Time += d
+	if d > s.stats.MaxQuery {
+		s.stats.MaxQuery = d
+	}
+	b := 5
+	for i, lim := range []time.Duration{5 * time.Millisecond, 20 * time.Millisecond, 100 * time.Millisecond, 500 * time.Millisecond, 2 * time.Second} {
+		if d < lim {
+			b = i
+			break
+		}
+	}
+	s.stats.Hist[b]++
+	s.stats.HistTime[b] += d
+	switch res {
+	case Sat:
+		s.stats.Sat++
+	case Unsat:
+		s.stats.Unsat++
+	default:
+		s.stats.Unknown++
+	}
+	return res
+}
+
+func (s *Solver) setTimeout(ms int) {
+	if s.kind != "cvc5" {
+		s.send(fmt.Sprintf("(set-option :timeout %d)", ms))
+	}
+}
+
+func (s *Solver) check1() Result {
+	s.send(s.checkCmd)
 	s.in.Flush()
 	res := Unknown
 	for {
@@ -237,10 +351,10 @@ func (s *Solver) Check() Result {
 			s.sawError = true
 			s.lastErr = "solver died: " + err.Error()
 			s.stats.Errors++
+			s.deaths++
 			// restart so later queries can proceed; caller must treat as unknown
 			s.Restart()
-			res = Unknown
-			break
+			return Unknown
 		}
 		if line == "sat" {
 			res = Sat
@@ -261,20 +375,6 @@ func (s *Solver) Check() Result {
 			continue
 		}
 	}
-	d := time.Since(t0)
-	s.stats.Queries++
-	s.stats.Time += d
-	if d > s.stats.MaxQuery {
-		s.stats.MaxQuery = d
-	}
-	switch res {
-	case Sat:
-		s.stats.Sat++
-	case Unsat:
-		s.stats.Unsat++
-	default:
-		s.stats.Unknown++
-	}
 	return res
 }
 
@@ -285,22 +385,91 @@ func (s *Solver) CheckWith(extra ...*Term) Result {
 			return Unsat
 		}
 	}
-	gen := s.gen
+	d := s.deaths
 	s.Push()
 	for _, e := range extra {
 		s.Assert(e)
 	}
 	r := s.Check()
-	if s.gen == gen {
+	if s.deaths == d {
 		s.Pop()
 	}
 	return r
+}
+
+// fallbackCheck decides the current assertion stack with fresh solver processes (z3 5.1.0, then
+// z3 4.8.12), non-incrementally, with the full timeout. On sat the model of all variables, array
+// reads and function applications is kept for GetValues.
+func (s *Solver) fallbackCheck() Result {
+	var asserts []*Term
+	for _, lvl := range s.stack {
+		asserts = append(asserts, lvl...)
+	}
+	dir := workDir()
+	path := fmt.Sprintf("%s/fb_%p_%d.smt2", dir, s, s.stats.Queries)
+	f, err := os.Create(path)
+	if err != nil {
+		return Unknown
+	}
+	w := bufio.NewWriter(f)
+	vars, apps := s.ts.DumpStandaloneModel(w, asserts)
+	w.Flush()
+	f.Close()
+	defer os.Remove(path)
+	secs := s.timeoutMs / 1000
+	if secs < 1 {
+		secs = 1
+	}
+	for _, bin := range []string{"z3-new", "z3"} {
+		out, _ := exec.Command(bin, fmt.Sprintf("-T:%d", secs), path).Output()
+		text := string(out)
+		first := strings.TrimSpace(strings.SplitN(text, "\n", 2)[0])
+		switch first {
+		case "unsat":
+			return Unsat
+		case "sat":
+			rest := ""
+			if i := strings.Index(text, "\n"); i >= 0 {
+				rest = text[i+1:]
+			}
+			vals := parseValues(rest)
+			if len(vals) != len(vars)+2*len(apps) {
+				s.sawError = true
+				s.lastErr = fmt.Sprintf("fallback model parse: got %d values, want %d", len(vals), len(vars)+2*len(apps))
+				return Unknown
+			}
+			env := make(map[string]uint64, len(vals))
+			for i, v := range vars {
+				env[v.name] = vals[i]
+			}
+			for i, a := range apps {
+				arg, val := vals[len(vars)+2*i], vals[len(vars)+2*i+1]
+				if a.op == OpSelect {
+					env[fmt.Sprintf("%s[%d]", a.name, arg)] = val
+				} else {
+					env[fmt.Sprintf("%s(%d)", a.name, arg)] = val
+				}
+			}
+			s.fbEnv = env
+			s.fbActive = true
+			return Sat
+		}
+	}
+	return Unknown
 }
 
 // GetValues must be called right after a Sat Check (before pop). Returns values of terms.
 func (s *Solver) GetValues(terms []*Term) ([]uint64, bool) {
 	if len(terms) == 0 {
 		return nil, true
+	}
+	if s.fbActive {
+		out := make([]uint64, len(terms))
+		memo := map[*Term]uint64{}
+		for i, t := range terms {
+			out[i] = s.ts.Eval(t, s.fbEnv, memo)
+		}
+		return out, true
 	}
 	out := make([]uint64, len(terms))
 	const chunk = 200
@@ -491,6 +660,12 @@ func (ts *TermStore) DumpStandalone(w io.Writer, asserts []*Term) {
 				fmt.Fprintf(w, "(declare-const %s (Array %s %s))\n", t.name, sortOf(uint8(t.val)), sortOf(t.w))
 			}
 			fmt.Fprintf(w, "(define-fun t%d () %s %s)\n", t.id, sortOf(t.w), t.body())
+		case OpApply:
+			if !arrs[t.name] {
+				arrs[t.name] = true
+				fmt.Fprintf(w, "(declare-fun %s (%s) %s)\n", t.name, sortOf(t.a.w), sortOf(t.w))
+			}
+			fmt.Fprintf(w, "(define-fun t%d () %s %s)\n", t.id, sortOf(t.w), t.body())
 		default:
 			fmt.Fprintf(w, "(define-fun t%d () %s %s)\n", t.id, sortOf(t.w), t.body())
 		}
@@ -499,4 +674,92 @@ func (ts *TermStore) DumpStandalone(w io.Writer, asserts []*Term) {
 		fmt.Fprintf(w, "(assert %s)\n", a.ref())
 	}
 	fmt.Fprintln(w, "(check-sat)")
+}
+
+// DumpStandaloneModel writes a script deciding the conjunction of asserts followed by one
+// get-value request covering all variables and all array-read / function-application terms
+// (argument and value). It returns those terms in the order requested.
+func (ts *TermStore) DumpStandaloneModel(w io.Writer, asserts []*Term) (vars []*Term, apps []*Term) {
+	seen := map[*Term]bool{}
+	decl := map[string]bool{}
+	var order []*Term
+	var stack []*Term
+	for _, a := range asserts {
+		stack = append(stack, a)
+	}
+	// iterative post-order
+	type fr struct {
+		t *Term
+		k int
+	}
+	var st []fr
+	for _, a := range asserts {
+		st = append(st, fr{a, 0})
+		for len(st) > 0 {
+			f := &st[len(st)-1]
+			x := f.t
+			if x == nil || seen[x] || x.op == OpConst {
+				st = st[:len(st)-1]
+				continue
+			}
+			var child *Term
+			switch f.k {
+			case 0:
+				child = x.a
+			case 1:
+				child = x.b
+			case 2:
+				child = x.c
+			}
+			if f.k < 3 {
+				f.k++
+				if child != nil && !seen[child] && child.op != OpConst {
+					st = append(st, fr{child, 0})
+				}
+				continue
+			}
+			seen[x] = true
+			order = append(order, x)
+			st = st[:len(st)-1]
+		}
+	}
+	fmt.Fprintln(w, "(set-option :model.completion true)")
+	for _, t := range order {
+		switch t.op {
+		case OpVar:
+			fmt.Fprintf(w, "(declare-const %s %s)\n", t.name, sortOf(t.w))
+			vars = append(vars, t)
+		case OpSelect:
+			if !decl[t.name] {
+				decl[t.name] = true
+				fmt.Fprintf(w, "(declare-const %s (Array %s %s))\n", t.name, sortOf(uint8(t.val)), sortOf(t.w))
+			}
+			fmt.Fprintf(w, "(define-fun t%d () %s %s)\n", t.id, sortOf(t.w), t.body())
+			apps = append(apps, t)
+		case OpApply:
+			if !decl[t.name] {
+				decl[t.name] = true
+				fmt.Fprintf(w, "(declare-fun %s (%s) %s)\n", t.name, sortOf(t.a.w), sortOf(t.w))
+			}
+			fmt.Fprintf(w, "(define-fun t%d () %s %s)\n", t.id, sortOf(t.w), t.body())
+			apps = append(apps, t)
+		default:
+			fmt.Fprintf(w, "(define-fun t%d () %s %s)\n", t.id, sortOf(t.w), t.body())
+		}
+	}
+	for _, a := range asserts {
+		fmt.Fprintf(w, "(assert %s)\n", a.ref())
+	}
+	fmt.Fprintln(w, "(check-sat)")
+	if len(vars)+len(apps) > 0 {
+		fmt.Fprint(w, "(get-value (")
+		for _, v := range vars {
+			fmt.Fprintf(w, "%s ", v.name)
+		}
+		for _, a := range apps {
+			fmt.Fprintf(w, "%s %s ", a.a.ref(), a.ref())
+		}
+		fmt.Fprintln(w, "))")
+	}
+	return
 }
